@@ -1,10 +1,12 @@
 import MosnVerif.Lemmas.PoolSpec
+import MosnVerif.Lemmas.StreamOnce
+import MosnVerif.Lemmas.PoolMuxSpec
 /-!
 # C09 — upstream connection pools: exclusive leases, no leaks, no dirty reuse (property theorems only)
 
 All theorems are about `Model/Pool.lean` (HTTP/1 pool and xprotocol ping-pong pool, both `Kind`s), whose decisions are
 the regenerated functions of `Gen/Pool.lean`, and hold for EVERY pool configuration (`maxConn`, `maxReq`), EVERY list
-of operations {new stream (connect ok | fails), response (with/without `Connection: close`), garbage reply, local
+of operations {new stream (connect ok | refused | timed out), response (with/without `Connection: close`), garbage reply, local
 reset, late reset of a finished stream, go-away, unknown-id reply, connection close by either side, Shutdown, Close,
 load on the shared requests breaker from other pools} and every intermediate state (`reach`).
 -/
@@ -115,23 +117,34 @@ theorem clean_history (k : Kind) (maxConn maxReq : Nat) (ops : List Op) (i : Nat
 
 /-- **no_leak**, first half: a refused or failed `NewStream` (requests breaker full, connection limit reached,
 connect failure) leaves the whole state — books and truth — exactly as it was. Holds in every state. -/
-theorem no_leak (s : State) (connectFails : Bool) (h : (newStream s connectFails).2.isOk = false) :
-    (newStream s connectFails).1 = s := newStream_refused s connectFails h
+theorem no_leak (s : State) (dial : Dial) (h : (newStream s dial).2.isOk = false) :
+    (newStream s dial).1 = s := newStream_refused s dial h
+
+/-- `no_leak` for a failed dial spelled out: when no idle connection exists the call dials; whether the connect is
+refused (`api.ConnectFailed`) or times out (`api.ConnectTimeout`) the call is not granted and the slot it took for the
+new connection is free again (`totalClientCount` and everything else exactly as before). The counter movements of the
+failure branch and of both event branches are regenerated (`h1DialFailDelta`, `ppDialFailDelta`). -/
+theorem dial_failure_releases_slot (s : State) (dial : Dial) (hf : dial.fails = true) (hidle : s.idle = []) :
+    (newStream s dial).2.isOk = false ∧ (newStream s dial).1 = s := by
+  have h1 : (newStream s dial).2.isOk = false := by
+    rw [newStream_isOk, acquire_isOk, hidle]
+    simp [hf]
+  exact ⟨h1, newStream_refused s dial h1⟩
 
 /-- **no_leak**, second half (capacity comes back): in every reachable state a lease is granted exactly when the
 requests breaker has room and fewer than `maxConn` connections are really leased (and a connection can be had).
 Capacity therefore depends only on the truth, never on history: whatever finished, failed or was refused before. -/
-theorem capacity_restored (k : Kind) (maxConn maxReq : Nat) (ops : List Op) (connectFails : Bool) :
+theorem capacity_restored (k : Kind) (maxConn maxReq : Nat) (ops : List Op) (dial : Dial) :
     let s := reach k maxConn maxReq ops
-    (newStream s connectFails).2.isOk = true ↔
+    (newStream s dial).2.isOk = true ↔
       ((maxReq = 0 ∨ s.ext + s.liveCount < maxReq) ∧ (maxConn = 0 ∨ s.liveCount < maxConn) ∧
-       (connectFails = false ∨ s.idle ≠ [])) := by
+       (dial.fails = false ∨ s.idle ≠ [])) := by
   intro s
   have h : Inv s := reach_inv k maxConn maxReq ops
   have hk : s.maxConn = maxConn ∧ s.maxReq = maxReq := by
     have := run_cfg (init k maxConn maxReq) ops
     exact ⟨this.2.1, this.2.2⟩
-  have := granted_iff s h connectFails
+  have := granted_iff s h dial
   rw [hk.1, hk.2] at this
   exact this
 
@@ -154,24 +167,280 @@ theorem destroy_once (k : Kind) (maxConn maxReq : Nat) (ops : List Op) (i : Nat)
 theorem spec_holds_on_model (k : Kind) (maxConn maxReq : Nat) (ops : List Op) :
     let s := reach k maxConn maxReq ops
     obsSpec s.maxReq s.ext (obsOf s) = true ∧
-    ∀ f, newStreamSpec s.maxConn s.maxReq s.ext f (obsOf s) (newStream s f).2.isOk (obsOf (newStream s f).1) = true := by
+    ∀ f : Dial, newStreamSpec s.maxConn s.maxReq s.ext f.fails (obsOf s) (newStream s f).2.isOk (obsOf (newStream s f).1) = true := by
   intro s
   have h : Inv s := reach_inv k maxConn maxReq ops
   exact ⟨obsSpec_holds s h, fun f => newStreamSpec_holds s h f⟩
 
 /-! ### non-vacuity: concrete histories reaching the interesting states -/
 -- reuse after a clean exchange: the same connection serves the second request
-example : ((trace (init .h1 1 1) [.newStream false, .response 0 false, .newStream false]).map (·.1)) =
+example : ((trace (init .h1 1 1) [.newStream .ok, .response 0 false, .newStream .ok]).map (·.1)) =
     [.ok 0, .none, .ok 0] := by decide
 -- local reset: the connection is closed, the next request gets a new one; books are back to 1
-example : let s := reach .pp 1 0 [.newStream false, .localReset 0, .newStream false]
+example : let s := reach .pp 1 0 [.newStream .ok, .localReset 0, .newStream .ok]
     (s.client 0).netOpen = false ∧ s.idle = [] ∧ s.total = 1 ∧ (s.stream 1).conn = 1 := by decide
 -- requests breaker full (held by another pool): refusal, no connection made, capacity back after release
-example : ((trace (init .h1 2 1) [.extInc, .newStream false, .extDec, .newStream false]).map (·.1)) =
+example : ((trace (init .h1 2 1) [.extInc, .newStream .ok, .extDec, .newStream .ok]).map (·.1)) =
     [.none, .overflow, .none, .ok 0] := by decide
-example : (reach .h1 2 1 [.extInc, .newStream false]).nClients = 0 := by decide
+example : (reach .h1 2 1 [.extInc, .newStream .ok]).nClients = 0 := by decide
+-- max_connections dial timeouts in a row, then a dial that succeeds: the slots were all given back
+example : ((trace (init .h1 2 0) [.newStream .timeout, .newStream .timeout, .newStream .timeout, .newStream .ok, .newStream .refused, .newStream .ok]).map (·.1)) =
+    [.connFail true, .connFail true, .connFail true, .ok 0, .connFail false, .ok 1] := by decide
+example : (reach .h1 2 0 [.newStream .timeout, .newStream .timeout]).total = 0 := by decide
+example : (reach .pp 1 0 [.newStream .timeout, .newStream .refused]).total = 0 := by decide
 -- connection limit reached, then freed by a remote close of the leased connection
-example : ((trace (init .pp 1 0) [.newStream false, .newStream false, .connClose 0 true, .newStream false]).map (·.1)) =
+example : ((trace (init .pp 1 0) [.newStream .ok, .newStream .ok, .connClose 0 true, .newStream .ok]).map (·.1)) =
     [.ok 0, .overflow, .none, .ok 1] := by decide
+
+/-! ## concurrent `ResetStream` / `DestroyStream` calls on one stream (the schedules of the quantifier)
+
+`Model/StreamOnce.lean`: any number of goroutines, each issuing any list of `ResetStream` / `DestroyStream` calls on ONE
+`BaseStream`, interleaved step by step (atomic accesses of `state`, `Lock` / `Unlock`, listener loops) by an arbitrary
+schedule.  The step programs are regenerated (`Gen/StreamOnce.lean`). -/
+section Concurrent
+open MosnVerif.Model.StreamOnce MosnVerif.Gen.StreamOnce
+
+/-- the tie's precondition: in the Go source every atomic access of `state` and every `Lock` of the two methods is
+directly preceded by a verif yield point naming it, so the harness' scheduler can stop a goroutine before each. -/
+theorem yield_sites_cover_atomics : yieldCovered = true := by decide
+
+/-- the regenerated programs are in the class the invariant is proved for: `DestroyStream` passes ONE compare-and-swap
+from the live state before anything else it does to the stream; `ResetStream` only load-guards, notifies and calls it. -/
+theorem gen_progs_good : good genProgs = true := by decide
+
+/-- for EVERY pair of step programs of that class, every set of goroutines and every schedule. -/
+theorem destroy_once_concurrent_of_good (P : Progs) (hP : good P = true) (ts : List (List Call)) (sched : List Nat) :
+    let c := (Conf.init P ts).run P sched
+    c.destroys ≤ 1 ∧ (c.state = 0 → c.destroys = 0) ∧ c.resets ≤ resetCalls ts * rcount P.reset ∧
+    (c.done = true → (∃ l ∈ ts, l ≠ []) → c.destroys = 1 ∧ c.state ≠ 0) := by
+  intro c
+  simp only [good, Bool.and_eq_true, beq_iff_eq] at hP
+  obtain ⟨⟨hgd, hgr⟩, hrc⟩ := hP
+  obtain ⟨new, body, hD⟩ := goodD_shape P.destroy hgd
+  have hinv : Inv new body ts c := inv_run hD _ (inv_init hD hgr ts) sched
+  have hFd : c.destroys ≤ F c := by simp only [F]; omega
+  have hG : c.resets ≤ resetCalls ts * rcount P.reset := by
+    have h1 := G_run P hrc (Conf.init P ts) sched
+    rw [G_init P hrc ts] at h1
+    have h2 : c.resets ≤ G c := by simp only [G]; omega
+    exact Nat.le_trans h2 h1
+  refine ⟨?_, ?_, hG, ?_⟩
+  · by_cases hs : c.state = 0
+    · have := (hinv.live hs).1; omega
+    · have := hinv.dead hs; omega
+  · intro hs; have := (hinv.live hs).1; omega
+  · intro hdone ⟨l0, hl0, hne⟩
+    have hall : ∀ l ∈ c.threads, l = [] := by
+      intro l hl
+      have := List.all_eq_true.mp hdone l hl
+      simpa using this
+    have hs : c.state ≠ 0 := by
+      intro hs
+      obtain ⟨t, ht⟩ := List.getElem?_of_mem hl0
+      obtain ⟨l, hl, hw⟩ := (hinv.live hs).2.2 t l0 ht hne
+      rw [hall l (List.mem_of_getElem? hl)] at hw
+      exact absurd hw (by decide)
+    have hF := hinv.dead hs
+    have hz : (c.threads.map fires).sum = 0 :=
+      sum_zero_of_all fires _ (fun x hx => by rw [hall x hx]; rfl)
+    simp only [F, hz] at hF
+    exact ⟨by omega, hs⟩
+
+/-- **destroy_once_concurrent**: for every number of goroutines, every list of `ResetStream` / `DestroyStream` calls
+each of them issues on one stream and EVERY schedule of their atomic steps, the destroy listeners are notified at most
+once, and never while `state` still says the stream is live; the reset listeners are notified at most once per
+`ResetStream` call — at most once when at most one of the overlapping calls is a `ResetStream` (a timeout's reset
+overlapping the completion's `DestroyStream`). -/
+theorem destroy_once_concurrent (ts : List (List Call)) (sched : List Nat) :
+    let c := (Conf.init genProgs ts).run genProgs sched
+    c.destroys ≤ 1 ∧ (c.state = 0 → c.destroys = 0) ∧ c.resets ≤ resetCalls ts ∧ (resetCalls ts ≤ 1 → c.resets ≤ 1) := by
+  intro c
+  have h := destroy_once_concurrent_of_good genProgs gen_progs_good ts sched
+  have hr : rcount genProgs.reset = 1 := by decide
+  rw [hr, Nat.mul_one] at h
+  exact ⟨h.1, h.2.1, h.2.2.1, fun h1 => Nat.le_trans h.2.2.1 h1⟩
+
+/-- … and exactly once as soon as every call has returned (at least one call was made): no schedule loses the
+destruction, whoever wins the CAS delivers it. -/
+theorem destroy_exactly_once_when_returned (ts : List (List Call)) (sched : List Nat)
+    (hcall : ∃ l ∈ ts, l ≠ []) (hdone : ((Conf.init genProgs ts).run genProgs sched).done = true) :
+    ((Conf.init genProgs ts).run genProgs sched).destroys = 1 ∧ ((Conf.init genProgs ts).run genProgs sched).state ≠ 0 :=
+  (destroy_once_concurrent_of_good genProgs gen_progs_good ts sched).2.2.2 hdone hcall
+
+/-- the executable predicate of the `once` cases holds of every model configuration. -/
+theorem once_spec_holds_on_model (ts : List (List Call)) (sched : List Nat) :
+    let c := (Conf.init genProgs ts).run genProgs sched
+    onceSpec (resetCalls ts) (ts.map List.length).sum c.done c.state c.resets c.destroys = true := by
+  intro c
+  have h := destroy_once_concurrent ts sched
+  have hcalls : (ts.map List.length).sum ≠ 0 → ∃ l ∈ ts, l ≠ [] := by
+    intro hn
+    by_cases hex : ∃ l ∈ ts, l ≠ []
+    · exact hex
+    · exfalso; apply hn
+      have : ∀ l ∈ ts, l = [] := fun l hl => Classical.byContradiction (fun hne => hex ⟨l, hl, hne⟩)
+      clear hn hex h
+      induction ts with
+      | nil => rfl
+      | cons a r ih =>
+        simp only [List.map_cons, List.sum_cons]
+        rw [this a (by simp), ih (fun l hl => this l (by simp [hl]))]; rfl
+  simp only [onceSpec, Bool.and_eq_true, Bool.or_eq_true, decide_eq_true_eq, Bool.not_eq_true', beq_iff_eq, bne_iff_ne, ne_eq]
+  refine ⟨⟨⟨h.1, h.2.2.1⟩, ?_⟩, ?_⟩
+  · by_cases hd : c.done = true
+    · by_cases hn : (ts.map List.length).sum = 0
+      · exact Or.inl (Or.inr hn)
+      · have := destroy_exactly_once_when_returned ts sched (hcalls hn) hd
+        exact Or.inr ⟨this.1, this.2⟩
+    · left; left; simpa using hd
+  · by_cases hz : c.destroys = 0
+    · exact Or.inl hz
+    · right; intro hs; exact hz (h.2.1 hs)
+
+/-! ### witnesses (machine-checked) -/
+-- the exactly-once guard written as "load, then store under the stream lock": two destroyers that both load before
+-- either stores notify the destroy listeners TWICE (goroutines 0 and 1 each issue one DestroyStream)
+example : ((Conf.init loadStoreProgs [[.destroy], [.destroy]]).run loadStoreProgs
+    [0, 0, 1, 1, 0, 0, 0, 0, 0, 0, 0, 1, 1, 1, 1, 1, 1, 1]).destroys = 2 := by decide
+-- the same with the seeded overlap: a timeout's ResetStream (goroutine 0) is still notifying its listeners when the
+-- completion's DestroyStream (goroutine 1) passes its load
+example : ((Conf.init loadStoreProgs [[.reset], [.destroy]]).run loadStoreProgs
+    [0, 0, 0, 0, 1, 1, 0, 0, 0, 0, 0, 0, 0, 0, 0, 0, 0, 0, 1, 1, 1, 1, 1, 1, 1]).destroys = 2 := by decide
+example : good loadStoreProgs = false := by decide
+-- the current code under the same schedules: once
+example : ((Conf.init genProgs [[.reset], [.destroy]]).run genProgs
+    [0, 0, 0, 0, 1, 1, 0, 0, 0, 0, 0, 0, 0, 0, 0, 0, 0, 0, 1, 1, 1, 1, 1, 1, 1]).destroys = 1 := by decide
+-- a quirk of the code that exists, outside the property: two OVERLAPPING ResetStream calls both pass the load guard
+-- and both notify OnResetStream (the destroy still happens once) — hence "at most once per ResetStream call"
+def twoResets : Conf := (Conf.init genProgs [[.reset], [.reset]]).run genProgs
+  ([0, 0, 1, 1] ++ List.replicate 14 0 ++ List.replicate 8 1)
+example : twoResets.resets = 2 ∧ twoResets.destroys = 1 ∧ twoResets.done = true := by decide
+-- non-vacuity of `done`: a complete schedule exists
+example : ((Conf.init genProgs [[.reset, .destroy], [.destroy]]).run genProgs
+    ((List.replicate 25 0) ++ (List.replicate 10 1))).done = true := by decide
+
+end Concurrent
+
+/-! ## the multiplex pool (`Model/PoolMux.lean`): slots, shared connections, go-away
+
+Every operation list {CheckAndInit (slot from the context | round robin; dial ok | refused | timed out), NewStream,
+response, local reset, garbage, go-away, connection close by either side, Shutdown, Close, load on the shared requests
+breaker}, every `max_connections` / `max_requests`. -/
+section Mux
+open MosnVerif.Model
+
+/-- the state after an arbitrary operation list against a fresh multiplex pool -/
+def mreach (maxConn maxReq : Nat) (ops : List PoolMux.Op) : PoolMux.State := PoolMux.run (PoolMux.init maxConn maxReq) ops
+
+theorem mux_reach_inv (maxConn maxReq : Nat) (ops : List PoolMux.Op) : PoolMux.Inv (mreach maxConn maxReq ops) :=
+  PoolMux.inv_run _ (PoolMux.inv_init maxConn maxReq) ops
+
+/-- **books** (multiplex): the shared requests breaker counts exactly the requests in flight plus the slots held
+elsewhere (nothing when its limit is 0); it never goes negative. -/
+theorem mux_books (maxConn maxReq : Nat) (ops : List PoolMux.Op) :
+    let s := mreach maxConn maxReq ops
+    s.reqCur = (if s.maxReq = 0 then 0 else (s.ext : Int) + (s.liveCount : Int)) ∧ 0 ≤ s.reqCur := by
+  intro s
+  have hinv : PoolMux.Inv s := mux_reach_inv maxConn maxReq ops
+  have h := hinv.core.req
+  refine ⟨h, ?_⟩
+  rw [h]; split <;> omega
+
+/-- **no_leak** (multiplex): at every quiescent point every OPEN connection the pool ever made is either the
+Connected client of its slot (the pool will lease requests on it) or is draining after a go-away with at least one
+request still in flight — never open, unused and unreachable. (Fails for the code before the repair: after a go-away
+with requests in flight and a re-connect, the drained connection stayed open and its close emptied the successor's
+slot.) -/
+theorem mux_no_leak (maxConn maxReq : Nat) (ops : List PoolMux.Op) (c : Nat) :
+    let s := mreach maxConn maxReq ops
+    c < s.nClients → (s.client c).netOpen = true →
+    ((s.client c).slot < s.nSlots ∧ s.slot (s.client c).slot = .real c ∧ (s.client c).state = Gen.PoolMux.muxConnected) ∨
+    (∃ i, i < s.nStreams ∧ (s.stream i).live = true ∧ (s.stream i).conn = c) := by
+  intro s hc ho
+  have h : PoolMux.Inv s := mux_reach_inv maxConn maxReq ops
+  by_cases hg : (s.client c).goaway = 0
+  · left
+    have hs := h.core.openOk c hc ho hg
+    exact ⟨h.core.slotRange _ c hs, hs, (h.core.st c hc).mpr hg⟩
+  · right
+    exact PoolMux.exists_of_countOn_pos _ _ _ (h.drain c hc ho hg)
+
+/-- the pool's view is the truth: the Connected client of a slot has an open connection, and a request in flight is
+on an open connection. -/
+theorem mux_slot_truth (maxConn maxReq : Nat) (ops : List PoolMux.Op) :
+    let s := mreach maxConn maxReq ops
+    (∀ i c, s.slot i = .real c → (s.client c).state = Gen.PoolMux.muxConnected → c < s.nClients ∧ (s.client c).netOpen = true) ∧
+    (∀ i, i < s.nStreams → (s.stream i).live = true → (s.client (s.stream i).conn).netOpen = true) := by
+  intro s
+  have h : PoolMux.Inv s := mux_reach_inv maxConn maxReq ops
+  exact ⟨fun i c hs hst => ⟨(h.core.slotOk i c hs).1, (h.core.slotOk i c hs).2.2 hst⟩,
+    fun i hi hl => (h.core.liveOk i hi hl).2⟩
+
+/-- a lease is granted only on an open connection that has not been told to go away; a refusal (no usable client in
+the slot, requests breaker full) changes nothing. -/
+theorem mux_lease_sound (maxConn maxReq : Nat) (ops : List PoolMux.Op) (k : Nat) :
+    let s := mreach maxConn maxReq ops
+    (∀ c, (PoolMux.newStream s k).2 = .ok c → c < s.nClients ∧ (s.client c).netOpen = true ∧ (s.client c).goaway = 0) ∧
+    ((PoolMux.newStream s k).2.isOk = false → (PoolMux.newStream s k).1 = s) := by
+  intro s
+  have h : PoolMux.Inv s := mux_reach_inv maxConn maxReq ops
+  unfold PoolMux.newStream
+  simp only
+  split
+  · exact ⟨fun c hc => (by cases hc), fun _ => rfl⟩
+  split
+  · exact ⟨fun c hc => (by cases hc), fun _ => rfl⟩
+  · exact ⟨fun c hc => (by cases hc), fun _ => rfl⟩
+  · rename_i c0 hs
+    split
+    · exact ⟨fun c hc => (by cases hc), fun _ => rfl⟩
+    · rename_i hu
+      split
+      · exact ⟨fun c hc => (by cases hc), fun _ => rfl⟩
+      · have ⟨h1, _, h3⟩ := h.core.slotOk _ c0 hs
+        have hst : (s.client c0).state = Gen.PoolMux.muxConnected := by
+          simp only [Gen.PoolMux.muxUnusable, decide_eq_true_eq, ne_eq, Decidable.not_not] at hu; exact hu
+        refine ⟨fun c hc => ?_, fun hno => by simp [PoolMux.Res.isOk] at hno⟩
+        cases hc
+        exact ⟨h1, h3 hst, (h.core.st c0 h1).mp hst⟩
+
+/-- **destroy_once** (multiplex): every stream tells its listeners of its end at most once — exactly once when it is
+no longer in flight — and hands over at most one response, none after a reset. -/
+theorem mux_destroy_once (maxConn maxReq : Nat) (ops : List PoolMux.Op) (i : Nat) :
+    let s := mreach maxConn maxReq ops
+    i < s.nStreams →
+    (s.stream i).destroys ≤ 1 ∧ ((s.stream i).destroys = 0 ↔ (s.stream i).live = true) ∧
+    (s.stream i).recv ≤ 1 ∧ (s.stream i).resets.length ≤ 1 ∧ ((s.stream i).recv = 1 → (s.stream i).resets = []) := by
+  intro s hi
+  have hinv : PoolMux.Inv s := mux_reach_inv maxConn maxReq ops
+  have h := hinv.core.once i hi
+  cases hl : (s.stream i).live
+  · have ⟨d1, d2, d3, d4⟩ := h.2 hl
+    exact ⟨by omega, by simp [d1], d2, d3, d4⟩
+  · have ⟨f1, f2, f3⟩ := h.1 hl
+    exact ⟨by omega, by simp [f1], by omega, by simp [f3], fun _ => f3⟩
+
+/-- the executable predicate evaluated on the implementation's observations holds of every model observation. -/
+theorem mux_spec_holds_on_model (maxConn maxReq : Nat) (ops : List PoolMux.Op) :
+    let s := mreach maxConn maxReq ops
+    PoolMux.obsSpec s.maxReq s.ext (PoolMux.obsOf s) = true :=
+  PoolMux.obsSpec_holds _ (mux_reach_inv maxConn maxReq ops)
+
+/-! ### non-vacuity -/
+-- go-away with a request in flight, re-connect, then the old request completes: the drained connection is closed,
+-- the successor keeps its slot
+example : let s := mreach 1 0 [.checkAndInit (some 0) .ok, .newStream 0, .goAway 0, .checkAndInit (some 0) .ok, .response 0]
+    (s.client 0).netOpen = false ∧ s.slot 0 = .real 1 ∧ (s.client 1).netOpen = true := by decide
+-- the old connection is lost instead: the successor keeps its slot and serves the next request
+example : ((PoolMux.trace (PoolMux.init 1 2) [.checkAndInit (some 0) .ok, .newStream 0, .newStream 0, .goAway 0,
+      .checkAndInit (some 0) .ok, .connClose 0 true, .newStream 0]).map (·.1)) =
+    [.ready false, .ok 0, .ok 0, .none, .ready false, .none, .ok 1] := by decide
+example : (mreach 1 2 [.checkAndInit (some 0) .ok, .newStream 0, .newStream 0, .goAway 0, .connClose 0 true]).reqCur = 0 := by decide
+-- a dial that is refused or times out leaves the slot empty; the next CheckAndInit connects
+example : ((PoolMux.trace (PoolMux.init 2 0) [.checkAndInit (some 1) .timeout, .newStream 1, .checkAndInit (some 1) .refused,
+      .checkAndInit (some 1) .ok, .checkAndInit (some 1) .ok, .newStream 1]).map (·.1)) =
+    [.ready false, .connFail, .ready false, .ready false, .ready true, .ok 0] := by decide
+
+end Mux
 
 end MosnVerif.Props.C09
